@@ -452,8 +452,6 @@ TRIAGED_NAV = {
         'tree_name was selected by is_definition(), which is get_definition() is not None',
     ('jedi.api.refactoring', 'inline', 'expr_stmt.get_next_leaf()'):
         'an expr_stmt is always followed by a newline, a semicolon or the endmarker',
-    ('jedi.api.refactoring.extract', 'extract_function', 'nodes[-1].get_next_leaf()'):
-        'the extracted nodes lie inside a function body, which is followed at least by the endmarker',
     # outside jedi/api
     ('jedi.inference.dynamic_params', '_get_potential_nodes', 'name.get_next_leaf()'):
         'a name leaf is never the last leaf of a module (the endmarker follows)',
